@@ -156,7 +156,8 @@ def check_refile(res, prop, cm, roles, m, b):
             elif len(bp) != 1 or bp[0].ent.kind != 'NEW' or bp[0].ent.arg != bind.res[1] or \
                     not (is_last_of(bp[0].val, aux) or bp[0].val == add[0].res):     # prev(end()) after the append, or list::emplace's result
                 ok, why = False, 'stored ttl position of the new key is not the appended node'
-    elif len(dls) == 0 and cls == 'UPDATE' and roles.kind == 'slotvec' and same_deadline_skip(seg, roles, aux) is not None:
+    elif len(dls) <= 1 and cls == 'UPDATE' and roles.kind == 'slotvec' and same_deadline_skip(seg, roles, aux) is not None:
+        # (a store of the deadline the path just found equal to the stored one changes nothing)
         # the path established that the stored deadline already equals the new one and left deadline and ttl entry alone
         verdict = same_deadline_skip(seg, roles, aux)
         if verdict == 'last':
